@@ -10,6 +10,7 @@ MC="$HERE/mc"
 export CARGO_NET_OFFLINE=true
 export RUSTFLAGS="--cfg fuzzing"
 export CARGO_TERM_COLOR=never
+export VERIF_HOME="$HERE"
 
 "$HERE/sync_subject.sh" || { echo "MACHINERY ERROR: subject sync failed" >&2; exit 2; }
 
